@@ -78,6 +78,14 @@ int cmdResave(int argc, char** argv) {
 				bytes = saveToString(gen, false, false);
 			}
 			markPhase(2);
+			{
+				// a model the query battery cannot be run on at all gives C02 nothing to observe (a crash here is a discard)
+				NifFile q;
+				if (loadFromString(q, bytes) != 0) return;
+				ContentIds qids;
+				battery(q, qids);
+			}
+			markPhase(3);
 			for (int def = 0; def < 2; def++) {
 				NifFile nif;
 				if (loadFromString(nif, bytes) != 0) return;
@@ -136,7 +144,7 @@ int cmdResave(int argc, char** argv) {
 		},
 		[&](size_t k, const std::string& why, FILE* out) {
 			int ph = lastCrashPhase();
-			fprintf(out, "{\"e\":\"%s\",\"case\":%s,\"why\":%s,\"phase\":%d}\n", ph < 2 ? "discard" : "crash", caseOf(k).c_str(), J::str(why).s.c_str(), ph);
+			fprintf(out, "{\"e\":\"%s\",\"case\":%s,\"why\":%s,\"phase\":%d}\n", (ph < 2 || (ph == 2 && cases[k].file.empty())) ? "discard" : "crash", caseOf(k).c_str(), J::str(why).s.c_str(), ph);
 		},
 		4096);
 	printf("{\"cases\":%zu,\"crashes\":%zu}\n", cases.size(), crashes);
